@@ -11,7 +11,7 @@ use serde_json::{json, Value};
 pub static ENGINE: Engine = Engine {
     prop: "C10",
     level: "exploration",
-    rule: "the real rsbdd binary on EVERY formula with <= 3 (4) AST nodes over the CLI alphabet (4 leaves, not, & | => ^, if, 4 quantifier heads, lfp/gfp, 5 counting comparisons; names bound, free, both) with -t under filter Any/True/False; on every formula <= 2 (3) nodes additionally: all 15 accepted filter spellings and 6 rejected near-misses, the three input channels (--evaluate, file, stdin; byte-identical stdout), every permutation / ordered subset / one-name superset (unused name before, between, after) of its names as ordering file, -v, -t -v together under each filter, -t -b 1, -t -b 3 (byte-identical to -t), and on a 14-formula core the full cross product spelling x channel x ordering x output; ten formulas with five or six free variables and two with names of 38 and 86 characters under three filters, -v and four orderings; and the option lattice {-t,-v,-t -v} x -f x -c x -m x -b x ordering x channel on a ten-formula core against the pipeline evaluate -> -c -> -m computed through the library API; tables of and/or chains over 7..100 variables judged without a truth table (each row's cube determines the value, rows disjoint, covered assignments add up); benchmark repetition counts -b 2..2048 around powers of two on the 14-formula core with -t, -v and -t -f true. Oracle: header = reference free variables in variable order; rows pairwise disjoint cubes; result column = reference value on every assignment covered; union = all / satisfying / falsifying assignments; -v lines denote exactly the satisfying assignments. distinct = distinct (argv, stdout) pairs",
+    rule: "the real rsbdd binary on EVERY formula with <= 3 (4) AST nodes over the CLI alphabet (4 leaves, not, & | => ^, if, 4 quantifier heads, lfp/gfp, 5 counting comparisons; names bound, free, both) with -t under filter Any/True/False; on every formula <= 2 (3) nodes additionally: all 15 accepted filter spellings and 6 rejected near-misses, the three input channels (--evaluate, file, stdin; byte-identical stdout), every permutation / ordered subset / one-name superset (unused name before, between, after) of its names as ordering file, -v, -t -v together under each filter, -t -b 1, -t -b 3 (byte-identical to -t), and on a 14-formula core the full cross product spelling x channel x ordering x output; ten formulas with five or six free variables and two with names of 38 and 86 characters under three filters, -v and four orderings; and the option lattice {-t,-v,-t -v} x -f x -c x -m x -b x ordering x channel on a ten-formula core against the pipeline evaluate -> -c -> -m computed through the library API; tables of and/or chains over 7..100 variables judged without a truth table (each row's cube determines the value, rows disjoint, covered assignments add up); diagrams over four variables given as Shannon-expansion text through -t: quick = every function one of whose cofactors with respect to the top variable is arbitrary while the other depends on at most one variable (both roles) plus all functions of three of the variables, thorough = EVERY one of the 65 536 functions, also under -f t, -f f and -v; a 185-member family of six-variable functions; benchmark repetition counts -b 2..2048 around powers of two on the 14-formula core with -t, -v and -t -f true. Oracle: header = reference free variables in variable order; rows pairwise disjoint cubes; result column = reference value on every assignment covered; union = all / satisfying / falsifying assignments; -v lines denote exactly the satisfying assignments. distinct = distinct (argv, stdout) pairs",
     assumptions: &["only the |-separated cells of stdout are read (layout is free)", "reference semantics and free-variable analysis of harness/src/refl.rs; -b 0 and -g are outside the property"],
     max_shards: 64,
     run,
@@ -383,6 +383,80 @@ fn pipeline_lattice(ctx: &mut Ctx, idx: &mut u64) {
 /// row's cube determines the formula's value (sound three-valued evaluation) and that value
 /// is the result column; rows are pairwise disjoint; the numbers of assignments covered add
 /// up to 2^n (Any) or to the number of satisfying / falsifying assignments.
+/// Shannon expansion of a truth table as formula text (`if x then .. else ..`, levels on
+/// which the function does not depend are skipped): the evaluated diagram is the reduced
+/// ordered diagram of the function, so running this over ALL truth tables drives the table
+/// printer with every diagram over the given variables.
+pub fn shannon_text(tt: u64, names: &[&str]) -> String {
+    fn go(tt: u64, names: &[&str], level: usize, fixed: usize) -> String {
+        if level == names.len() {
+            return if (tt >> fixed) & 1 == 1 { "true".into() } else { "false".into() };
+        }
+        let t = go(tt, names, level + 1, fixed | (1 << level));
+        let e = go(tt, names, level + 1, fixed);
+        if t == e {
+            t
+        } else if t == "true" && e == "false" {
+            names[level].to_string()
+        } else if t == "false" && e == "true" {
+            format!("-{}", names[level])
+        } else {
+            format!("(if {} then {} else {})", names[level], t, e)
+        }
+    }
+    go(tt, names, 0, 0)
+}
+
+/// Boolean functions of four variables (diagrams over a, b, c, d) through `-t`: in thorough
+/// all 65 536 (also under both filters and `-v`), in quick a one-sided family of 4 350; and a
+/// 185-member family of six variables
+fn function_space_tables(ctx: &mut Ctx, idx: &mut u64) {
+    let th = ctx.thorough();
+    // quick: one cofactor with respect to `a` arbitrary (all 256 functions of b, c, d), the
+    // other depending on at most one variable (8 functions), in both roles; plus every
+    // function of three variables on {b, c, d} and on {a, b, c}. thorough: all 65 536.
+    let simple: [u64; 8] = [0x00, 0xff, 0xaa, 0x55, 0xcc, 0x33, 0xf0, 0x0f];
+    // spread a table over (b, c, d) into the positions of assignments with a = 0 / a = 1
+    let lift = |f: u64, a: u64| -> u64 { (0..8).filter(|i| (f >> i) & 1 == 1).map(|i| 1u64 << (2 * i + a)).sum() };
+    let mut wanted = vec![false; 65536];
+    for g in 0..256u64 {
+        for &sfn in &simple {
+            wanted[(lift(g, 1) | lift(sfn, 0)) as usize] = true;
+            wanted[(lift(sfn, 1) | lift(g, 0)) as usize] = true;
+        }
+        // independent of a; independent of d (table over a, b, c repeated for d = 0 / 1)
+        wanted[(lift(g, 1) | lift(g, 0)) as usize] = true;
+        wanted[(g | (g << 8)) as usize] = true;
+    }
+    for tt in 0..65536u64 {
+        if !th && !wanted[tt as usize] {
+            continue;
+        }
+        *idx += 1;
+        if !ctx.mine(*idx) {
+            continue;
+        }
+        let text = shannon_text(tt, &["a", "b", "c", "d"]);
+        ctx.count("functions_k4", 1);
+        check_run(ctx, &base(&text, vec!["-t".into()]), Mode::Table(Filter::Any));
+        if th || tt % 16 == 9 {
+            check_run(ctx, &base(&text, filter_opts(Filter::True, "t")), Mode::Table(Filter::True));
+            check_run(ctx, &base(&text, filter_opts(Filter::False, "f")), Mode::Table(Filter::False));
+            check_run(ctx, &base(&text, vec!["-v".into()]), Mode::Vars);
+        }
+    }
+    for tt in crate::closure::family6() {
+        *idx += 1;
+        if !ctx.mine(*idx) {
+            continue;
+        }
+        let text = shannon_text(tt, &["p1", "p2", "p3", "p4", "p5", "p6"]);
+        ctx.count("functions_family6", 1);
+        family_a(ctx, &text);
+        check_run(ctx, &base(&text, vec!["-v".into()]), Mode::Vars);
+    }
+}
+
 fn wide_tables(ctx: &mut Ctx, idx: &mut u64) {
     use crate::cli::{parse_table, Cell};
     use rustc_hash::FxHashMap;
@@ -507,6 +581,7 @@ fn run(ctx: &mut Ctx) {
     }
     pipeline_lattice(ctx, &mut idx);
     wide_tables(ctx, &mut idx);
+    function_space_tables(ctx, &mut idx);
     for f in BIG {
         idx += 1;
         if ctx.mine(idx) {
